@@ -80,11 +80,7 @@ func setupRe(it *Item) *reCtx {
 		c.re = coregex.MustCompilePOSIX(it.Pattern)
 		c.std = regexp.MustCompilePOSIX(it.Pattern)
 	}
-	if len(it.Alpha) > 4 && it.Alpha[:4] == "set:" {
-		for i := 4; i < len(it.Alpha); i++ {
-			c.set[it.Alpha[i]] = true
-		}
-	}
+	setSet(&c.set, it.Alpha)
 	return c
 }
 
@@ -98,7 +94,7 @@ func haystack(it *Item, set *[256]bool) []byte {
 		}
 	case it.Alpha == "utf8":
 		verif.Assume(utf8.Valid(sym))
-	case len(it.Alpha) > 4 && it.Alpha[:4] == "set:":
+	case len(it.Alpha) > 4 && (it.Alpha[:4] == "set:" || it.Alpha[:4] == "hex:"):
 		for _, b := range sym {
 			verif.Assume(set[b])
 		}
